@@ -12,6 +12,10 @@ CHECKS = {
    technique="TLA+ spec DSControl/TFControl checked exhaustively by TLC; TLC-exported behaviours replayed into the real optimizers (change bits, counts, provenance via the code's own every-step twin); recorded traces validated by TLC against DSControl_Trace",
    text="TLC checks the cadence / warm-up / counter action properties on every configuration of the bounded grid (statistics and preconditioner intervals, scheduled intervals in exact integer arithmetic, start step, replicated / pmap-quantized / sharded order of phases). Every exported behaviour is replayed on the real Distributed Shampoo (3 modes) and Tearfree Shampoo/Sketchy: per step the bytewise change bits of statistics, roots and metrics, the counter, and the provenance (statistics equal those of an every-step twin fed exactly the absorbed gradients; roots equal the twin's roots at the refresh) must match; randomly configured runs (intervals up to 7, up to 40 steps) are recorded and validated as traces.",
    note="Trusted: TLC, the projection (bytewise comparison of successive state leaves), genericity of seeded normal gradients (provenance change implies byte change), 1e-5/1e-3 tolerance between twin XLA programs. Bounds: S,P<=3 (4 thorough) exhaustively, <=7 in traces; T<=24 (40 in traces)."),
+ "C03": dict(level="model_checking", ref="4/C03",
+   technique="TLA+ spec DSControl (acceptance gate) checked exhaustively by TLC; TLC-enumerated fault schedules driven through the real optimizer in three modes; every recorded per-statistic trace validated by TLC against DSControl_Trace",
+   text="TLC checks on the model that a stored root changes only on a refresh step, only to the candidate, only when the reported error class is finite-and-below-threshold (select, never blend), that the sentinel error of non-refresh steps keeps the old root and that a zero threshold freezes it, for every fault schedule, error class, threshold class and mode. TLC then enumerates all gradient-fault schedules (8 classes incl. NaN/Inf/zero/huge/tiny and the moderate extremes 1e12/1e-12; <=2 faults in 5 steps quick, <=3 in 6 thorough) x (S,P) x mode; each is run on the real optimizer (replicated, pmap int16-quantized, sharded; thresholds 0/1e-30/0.1/1e30; ridge 0 and >0; Newton/eigh; 6 graft types; 1x1 statistics included) and every statistic's trace - bytewise change bit of the stored root (payload+diagonal+buckets when quantized, the global row when sharded), error class by exact float comparison, finiteness of root and update - must be accepted.",
+   note="Trusted: TLC, bytewise projection, training_metrics as the reported error (on non-refresh steps the sentinel is modelled, not observed). Kernel contracts (accepted => finite; moderate history => finite update) are clauses of the trace spec, i.e. checked on every run, not assumed. One forced host device in pmap modes."),
 }
 
 NA_REASON = "check not built yet in this round (work in progress; see DESIGN.md section 9)"
